@@ -439,7 +439,9 @@ def r7_nothing_swallowed(ctx):
                             vals.append((unparse(tg.elts[0]), x.value.elts[0]))
                         elif not isinstance(tg, ast.Tuple):
                             vals.append((unparse(tg), x.value))
-                exs = [(n_, v) for n_, v in vals if n_ in ("ex", "self._exception")]
+                sent = [c.args[0].elts[0].id for c in ast.walk(fn) if isinstance(c, ast.Call) and unparse(c.func) == "self._send.send" and c.args
+                        and isinstance(c.args[0], ast.Tuple) and c.args[0].elts and isinstance(c.args[0].elts[0], ast.Name)]
+                exs = [(n_, v) for n_, v in vals if n_ in set(sent) | {"self._exception"}]
                 ok = bool(bound) and bool(exs) and all(not (isinstance(v, ast.Constant) and v.value is None) for _, v in exs)
                 ctx.ob("C08.R7", LNS, qual, h, f"the handler for {unparse(h.type) if h.type else 'everything'} reports the exception it caught", ok,
                        detail={"reported": [unparse(v)[:60] for _, v in exs]}, stmt=f"{qual} handler {unparse(h.type) if h.type else '*'}")
